@@ -13,7 +13,9 @@ distinguished output statement `out e`.
 The COMMON SUBSET where the seven languages agree is made explicit by run-time guards; a program that
 trips one is outside the quantifier (result `err:domain:…` / `err:type:…`, the harness discards it):
 * integers stay inside the signed 32-bit range (no overflow anywhere);
-* `%` only on a non-negative dividend and a positive divisor; there is no division;
+* integer division `div` and `%` only on a non-negative dividend and a positive divisor (where floor,
+  truncation and Euclidean division agree); `div` exists only in the languages with an integer
+  division operator (Python `//`; Java, Go, C `/`);
 * operators are applied to operands of their own type only (no implicit coercion): arithmetic and
   comparison on ints, `concat` on strings, `and`/`or`/`not` and conditions on booleans;
 * strings are not compared (Java/C compare references, PHP coerces numeric strings);
@@ -40,7 +42,7 @@ inductive Ty where
   deriving Repr, BEq, DecidableEq, Inhabited
 
 inductive BinOp where
-  | add | sub | mul | mod | lt | le | gt | ge | eq | ne | concat
+  | add | sub | mul | div | mod | lt | le | gt | ge | eq | ne | concat
   deriving Repr, BEq, DecidableEq, Inhabited
 
 inductive UnOp where
@@ -112,6 +114,8 @@ def binCore (op : BinOp) (a b : Val) : Res Val :=
   | .add, .int x, .int y => chkInt (x + y)
   | .sub, .int x, .int y => chkInt (x - y)
   | .mul, .int x, .int y => chkInt (x * y)
+  | .div, .int x, .int y =>
+    if x < 0 ∨ y ≤ 0 then .error "domain:div" else .ok (.int (x / y))
   | .mod, .int x, .int y =>
     if x < 0 ∨ y ≤ 0 then .error "domain:mod" else .ok (.int (x % y))
   | .lt, .int x, .int y => .ok (.bool (x < y))
@@ -435,13 +439,14 @@ abbrev evalCore := @runCore
 
 /-! ## Static fragment predicates used by the theorems -/
 
-/-- constants, variables, arithmetic / comparison / concat, unary operators. -/
+/-- constants, variables, arithmetic / comparison / concat (not `div`: its operator is `/` in the rows of
+Java, Go and C, whose meaning on integers the token alone does not fix), unary operators. -/
 def pureE : Expr → Bool
   | .int _ => true
   | .bool _ => true
   | .str _ => true
   | .var _ => true
-  | .bin _ l r => pureE l && pureE r
+  | .bin op l r => op != .div && pureE l && pureE r
   | .un _ e => pureE e
   | _ => false
 
